@@ -1,9 +1,12 @@
 use std::any::type_name;
 use std::fmt;
 #[cfg(folo_verif)]
+use std::sync::Arc;
+#[cfg(folo_verif)]
 use std::sync::atomic;
 #[cfg(not(folo_verif))]
 use std::sync::atomic::{self, AtomicU64};
+#[cfg(not(folo_verif))]
 use std::sync::{Arc, OnceLock};
 
 #[cfg(not(folo_verif))]
@@ -12,7 +15,7 @@ use many_cpus::{MemoryRegionId, SystemHardware};
 use rsevents::{Awaitable, EventState, ManualResetEvent};
 
 #[cfg(folo_verif)]
-use crate::__verif::sync::{ArcSwap, ArcSwapOption, AtomicU64};
+use crate::__verif::sync::{ArcSwap, ArcSwapOption, AtomicU64, OnceLock};
 
 /// Provides access to an instance of `T` that is locally cached in the current memory region.
 ///
